@@ -604,7 +604,7 @@ class C06Fixed(Prop):
         codes = sorted(DIR_CODES.values())
         plens = [0, 1, 2, 3, 255, 256, 65533, 65534]
         k = 0
-        for rep in range(6 if thorough else 2):
+        for rep in range(20 if thorough else 2):
             for a in all_confs(rng):
                 k += 1
                 p = {"code": codes[k % len(codes)], "plen": plens[k % len(plens)] if k % 3 else rng.randint(0, 65534)}
@@ -668,14 +668,14 @@ class C06Fixed(Prop):
     def ack_cases(self, rng, thorough):
         triples = [(ac, c, s) for ac in (4, 5) for c in COND_MEMBERS for s in range(4)]
         k = 0
-        for rep in range(6 if thorough else 2):
+        for rep in range(20 if thorough else 2):
             for a in all_confs(rng):
                 ac, c, s = triples[k % len(triples)]
                 k += 1
                 p = {"acked": ac, "cond": c, "status": s}
                 yield Case({"op": "ack_pack", **a, **p}, "valid", tag="config-all")
                 yield from dec_cases("ack_unpack", spec_ack(a, ac, c, s), rng, a, "config-all", False, k % 32 == 0)
-        for rep in range(6 if thorough else 2):
+        for rep in range(20 if thorough else 2):
             for ac, c, s in triples:
                 a = rand_conf(rng)
                 yield Case({"op": "ack_pack", **a, "acked": ac, "cond": c, "status": s}, "valid", tag="enum-all")
@@ -737,7 +737,7 @@ class C06Fixed(Prop):
     # ---- Prompt ----
     def prompt_cases(self, rng, thorough):
         k = 0
-        for rep in range(6 if thorough else 2):
+        for rep in range(20 if thorough else 2):
             for a in all_confs(rng):
                 for resp in (0, 1):
                     k += 1
@@ -770,7 +770,7 @@ class C06Fixed(Prop):
     # ---- Keep Alive ----
     def ka_cases(self, rng, thorough):
         k = 0
-        for rep in range(6 if thorough else 2):
+        for rep in range(20 if thorough else 2):
             for a in all_confs(rng):
                 k += 1
                 v = fss_val(rng, a["large"])
@@ -824,7 +824,7 @@ class C06Fixed(Prop):
     def nak_cases(self, rng, thorough):
         counts = [0, 1, 2, 3, 5, 17]
         k = 0
-        for rep in range(6 if thorough else 2):
+        for rep in range(20 if thorough else 2):
             for a in all_confs(rng):
                 k += 1
                 n = counts[k % len(counts)]
@@ -941,7 +941,7 @@ class C06Fixed(Prop):
     # ---- malformed stream shared by the four decoders ----
     def random_octets(self, rng, thorough):
         ops = ["fdir_unpack", "ack_unpack", "prompt_unpack", "ka_unpack", "nak_unpack"]
-        for _ in range(60000 if thorough else 5000):
+        for _ in range(300000 if thorough else 5000):
             ln = rng.choice([0, 1, 3, 4, 6, 7, 8, 9, 10, 11, 12, 15, 16, 24, rng.randint(0, 60)])
             b = bytearray(rbytes(rng, ln))
             if ln > 0 and rng.random() < 0.9:
